@@ -245,10 +245,14 @@ where
                 if let Some(layout_parser) = layout_parser {
                     log!("\n{}", "*** Parsing layout".paint(WARN_BOLD));
                     let current_state = context.state();
+                    let current_span = context.span();
                     context.set_state(S::default_layout().unwrap());
                     let p = layout_parser.parse_with_context(context, input);
                     log!("Layout is {p:?}");
                     context.set_state(current_state);
+                    // Layout is not a part of the content. Span should still
+                    // be the span of the last content token.
+                    context.set_span(current_span);
                     if let Ok(Some(layout)) = p {
                         if layout.len() > 0 {
                             log!("Skipping layout: {layout:?}");
